@@ -2,6 +2,8 @@ import WacModel.Parser
 import WacModel.AstJson
 import WacProofs.Lemmas.Screen
 import WacProofs.Lemmas.ParseSpans2
+import WacProofs.Lemmas.NoFuel
+import WacProofs.Lemmas.LexFuel
 /-
   C14 — no input crashes the front end; diagnostics point inside the source.
 
@@ -13,9 +15,12 @@ import WacProofs.Lemmas.ParseSpans2
       source on character boundaries (the last character; the empty span for an empty source);
     * `diagnostics_in_source`: the span of every diagnostic `Document::parse` can return lies
       inside the source, on character boundaries.
+    * `fuel_sufficient`: the fuel the model gives itself is enough — `Document::parse` (model) never
+      answers `OutOfFuel`, and the lexer's token list does not depend on its fuel: the model neither
+      loops nor gets stuck, for every input.
   Partial (kept visible below): boundaries for `InvalidVersion` (in-bounds is proved), the spans
-  inside *trees*, fuel sufficiency and the unreachability of the model's `Panic` sites, the Rust
-  stack — those are observed by the supervised harness and by the driver on every case.
+  inside *trees*, the unreachability of the model's `Panic` sites, the Rust stack — those are
+  observed by the supervised harness and by the driver on every case.
 -/
 namespace Wac.Props.C14
 open Wac Wac.Lex Wac.Parse Wac.Ast Wac.Lemmas Wac.Lemmas.LexSpans Wac.Lemmas.ParseSpans
@@ -87,5 +92,17 @@ example : (match parseDocument [] with
 example : (match parseDocument "package foo:bar // é".toList with
     | .error (.Expected .Semicolon none ⟨19, 2⟩) => true
     | _ => false) = true := by decide
+
+/-- C14 "never loop forever" for the model: every loop and recursion of the lexer/parser model is
+structurally recursive on a fuel counter (so the functions are total), and the fuel is sufficient:
+the parser never reports `OutOfFuel`, and the token list is the same with any larger lexer fuel. -/
+theorem fuel_sufficient (src : Str) :
+    parseDocument src ≠ .error .OutOfFuel ∧
+    ∀ extra, lexAll (src.length + 1 + extra) 0 src 0 src = tokenize src := by
+  refine ⟨?_, Wac.Lemmas.LexFuel.tokenize_fuel_sufficient src⟩
+  unfold parseDocument
+  split
+  · simp
+  · exact Wac.Lemmas.NoFuel.parseTokens_nf _
 
 end Wac.Props.C14
